@@ -77,18 +77,20 @@ def run_histdrv(cases):
 def run(tier):
     v = Verdict(PROP, tier, "model_checking")
     build_harness()
-    known_write = v.known_dev("WriteKeepsDirty")
     # (1) the properties on the model, exhaustively
     mc = run_tlc("History", "MC_History_ideal.cfg", workers=min(8, NCPU), coverage=True, timeout=1800)
     if not mc["ok"]:
         raise ToolError("History.tla ideal model violates its properties: %s\n%s" % (mc["violation"], mc.get("full", "")[-1500:]))
-    untaken = [a for a in ("NewSession", "Add", "Save", "WriteAll", "EndSession", "Delete", "Clear", "ToggleTs") if mc["coverage"].get(a, 0) == 0]
+    untaken = [a for a in ("NewSession", "Add", "Save", "EndSession", "Delete", "Clear", "ToggleTs") if mc["coverage"].get(a, 0) == 0]
     if untaken:
         raise ToolError("vacuity: actions never taken in the exhaustive run: %s" % untaken)
     states, distinct = mc["states"], mc["distinct"]
     # (2) behaviours to replay
     behaviours = []
-    dev = '{"WriteKeepsDirty"}' if known_write else "{}"
+    mw = run_tlc("History", "MC_History_write.cfg", workers=min(8, NCPU), timeout=1800)
+    if not mw["ok"]:
+        raise ToolError("History.tla (with history -w) violates TsAttached/ReloadEq: %s" % mw["violation"])
+    states += mw["states"]; distinct += mw["distinct"]
     for cfg in ["MC_History_emit1.cfg", "MC_History_emit2.cfg"]:
         r = run_tlc("History", cfg, workers=min(8, NCPU), timeout=1800, extra=None)
         if not r["ok"]:
